@@ -5,6 +5,43 @@ HERE = os.path.dirname(os.path.dirname(os.path.abspath(__file__)))
 ids = [json.loads(l)["id"] for l in open(os.path.join(HERE, "properties.jsonl"))]
 
 CLAIMS = {
+ "C19": dict(
+   text="BOUNDED STAND-INS ONLY - nothing is counted as proved for C19 (graph reachability and the text-encoded probe are outside "
+        "what the VC generator and the solvers decide; reasons in DESIGN.md 0.3 and contracts/c19_standins.py). The real "
+        "_calc_spanning_tree and _update_tree run natively on every directed multigraph over 3 switches (<= 2 parallel links per "
+        "ordered pair), every directed simple graph over 4 switches and random multigraphs up to 7 switches against an independent "
+        "oracle: tree edges are bidirectional links with the right ports, symmetric, acyclic, spanning exactly the bidirectional "
+        "components; NO_FLOOD is cleared exactly on tree and host-facing ports; a frame flooded from any switch reaches every "
+        "switch of its component once. The discovery probe is built, serialised, parsed and fed to the real packet-in handler for "
+        "boundary / random 64-bit dpids x 16-bit ports: exactly the right link is added once, a repeat only refreshes it, expiry "
+        "and switch disconnect withdraw it once, added before removed.",
+   note="bounded (bounds in the evidence); one known finding (switches with only one-way links keep flooding on them).",
+   ref="0.3 / 7/C19"),
+ "C06": dict(
+   text="Tasks are generators, which the evaluator does not run; the scheduler's plain functions are proved as single steps with "
+        "a task's generator as an opaque callee (any yield value, StopIteration, any exception): Scheduler.cycle over a ready "
+        "queue of 2..3 tasks - exactly the head task is stepped (once more only after a blocking operation that answers True), "
+        "a yielded 0 re-queues it last, a number sleeps it on the timer hub, False parks it, a blocking operation runs exactly once "
+        "with (task, scheduler), StopIteration / any exception of task or operation de-schedules only that task, all other tasks "
+        "keep their place; BaseTask.execute delivers the pending value / exception / resume function to the generator exactly "
+        "once and clears it; fast_schedule / schedule queue once at the requested end, schedule refuses a queued task; Sleep "
+        "parks, re-queues at once for 0 / past times, registers a future absolute time; SelectHub._select over 1..3 timer "
+        "waiters resumes exactly the waiters whose time has passed plus - on an idle OS select, whose timeout is proved to be "
+        "the earliest pending wake time minus now - the earliest one, each once, and forgets exactly those.",
+   note="all units bounded (reported so). NOT decided: anything that needs a generator or thread to run - Timer (one-shot / "
+        "recurring / cancel), task_function sub-task call / return, Scheduler.run and the hub threads, low-priority rotation, "
+        "I/O readiness in _select, 'every runnable task is eventually run'.",
+   ref="0.3 / 7/C06"),
+ "C07": dict(
+   text="Only the cooperative-lock clause of C07 is within reach of a per-call contract and is what this check decides: "
+        "Lock._do_acquire / _do_release over (holder, waiters) with the invariant 'nobody waits while the lock is free': a free "
+        "lock is taken at once, a held lock is never stolen, a non-blocking attempt reports False and does not wait, a blocking "
+        "attempt waits, a release hands the lock to exactly one waiter if any and re-queues exactly that waiter once, releasing a "
+        "free lock is refused.",
+   note="The thread hand-off clauses of C07 (call-later exactly once and in order, wake-ups from several threads, the "
+        "synchronized section, wake-up without polling) are statements about interleavings of OS threads; no contract over one "
+        "call can express them - NOT decided by this technique, stated in not_decided and DESIGN.md 0.3.",
+   ref="0.3 / 7/C07"),
  "C11": dict(
    text="The learning switch's decision LearningSwitch._handle_PacketIn is proved as one step over the abstract table "
         "(address -> port) for ALL source / destination addresses, ingress ports, ethertypes, transparent flag and buffered or "
@@ -210,9 +247,11 @@ for i in ids:
       "evidence_file": "evidence/%s.json" % i,
       "replay_cmd_template": "./check %s --replay {path}" % i,
       "engine": "pyvc",
-      "level_claimed": {"category": "proof", "text": c["text"], "design_ref": c["ref"]},
+      "level_claimed": {"category": "exploration" if i == "C19" else "proof", "text": c["text"], "design_ref": c["ref"]},
       "level_note": c["note"],
-      "technique": "contract-based deductive verification: VCs generated from the real function ASTs (pyvc), discharged by z3/cvc5; bounded stand-ins where stated",
+      "technique": ("bounded stand-in only (native enumeration of the real functions against an independent oracle, bounds stated): no "
+                    "contract within reach decides this property - not counted as proved") if i == "C19" else
+                   "contract-based deductive verification: VCs generated from the real function ASTs (pyvc), discharged by z3/cvc5; bounded stand-ins where stated",
     })
 m = {
  "version": 1,
